@@ -5,7 +5,7 @@
    name.  Built on the C01 stack (register_chain, WF_mkdir_chain, GWF_unregister, ...). *)
 From AF Require Import Lib.Bytes Lib.Path Lib.Ops Gen.Consts Model.MemFile Model.MemFs Model.WfOps Model.CowView
   Model.Union
-  Proofs.MemFsPath Proofs.MemFsBasics Proofs.MemFsWF Proofs.MemBelow Proofs.MemFsStep Proofs.MemFsInv Proofs.PathProof
+  Proofs.MemFsPath Proofs.MemFsBasics Proofs.MemFsWF Proofs.MemBelow Proofs.MemFsStep Proofs.MemFsInv Proofs.MemFsBelow Proofs.PathProof
   Proofs.CopyUpProof.
 Local Open Scope Z_scope.
 
@@ -262,7 +262,7 @@ Theorem layer_create_in_dir s name :
 Proof.
   intros W Hw nn Hroot Hpd. pose proof (wf_name_canon name Hw) as Hc. fold nn in Hc.
   assert (HWF : kind_at s nn <> Some true -> WF (fst (m_step s (Create name)))).
-  { intros Hk. apply WF_step; [exact W|]. cbn [wf_op]. rewrite Hw. fold nn. cbn [andb].
+  { intros Hk. apply WF_step; [exact W|]. apply wf_op_of_ord. cbn [wf_op_ord]. rewrite Hw. fold nn. cbn [andb].
     destruct (kind_at s nn) as [[|]|]; [congruence | reflexivity | exact Hpd]. }
   rewrite m_step_raw_tick in *. cbn [m_step_raw] in *. unfold m_create in *. fold nn in HWF |- *.
   destruct (is_dir_at_true s (par nn) Hpd) as (p & pn & Hp & Hpn & Hpdir).
